@@ -246,7 +246,7 @@ def run_shard(exe, stage, seed, tier, lo, n, outdir, tag, extra_args=(), timeout
             break
         crashes.append(crash)
         restarts += 1
-        if restarts > stage.get('max_crashes', 40):
+        if restarts > stage.get('max_crashes', 12):
             inconcl.append('shard %s: too many crashes, stopped at case %d' % (tag, idx))
             break
         cur = idx + 1
@@ -383,37 +383,50 @@ def check(prop, tier, seed):
                                            check=chk, tags=tags, case=ev.get('case'), observed=ev.get('observed'),
                                            expected=ev.get('expected'), count=0)
                 violations[sig]['count'] += 1
+        # crashes: confirm at most 2 per preliminary signature, in parallel
+        todo = []
+        seen_pre = {}
+        for r in results:
             for cr in r['crashes']:
-                idx = cr['index']
-                # confirm on a single-case re-run
-                rc, evs, err = single_case(exe, stage, seed, tier, idx, outdir, timeout=stage.get('case_timeout', 60))
-                desc, tags = None, []
-                for e in evs:
-                    if e.get('t') == 'case':
-                        desc, tags = e.get('case'), e.get('tags', [])
-                repro = not (rc == 0)
-                if not repro:
-                    inconclusive.append('crash at case %d (%s) did not reproduce in isolation' % (idx, cr.get('kind')))
-                    continue
-                cr2 = dict(cr)
-                cr2['stderr'] = err[-8000:]
-                kind, func = crash_signature(cr2)
-                if kind.startswith('exit') or kind == 'crash':
-                    kind2, func2 = crash_signature(cr)
-                    if kind2.startswith('asan'):
-                        kind, func = kind2, func2
-                chk = 'crash:%s:%s' % (kind, func)
-                san_reports[chk] = san_reports.get(chk, 0) + 1
-                k = match_known(prop, chk, tags, known)
-                if k:
-                    known_seen.setdefault(k['id'], dict(k=k, n=0))['n'] += 1
-                    continue
-                sig = chk + '|' + ','.join(sorted(tags))
-                if sig not in violations:
-                    violations[sig] = dict(property=prop, harness=stage['harness'], variant=stage['variant'],
-                                           mode=stage.get('mode', ''), seed=seed, tier=tier, index=idx, check=chk,
-                                           tags=tags, case=desc, observed=err[-3000:], expected='no crash', count=0)
-                violations[sig]['count'] += 1
+                pre = crash_signature(cr)
+                seen_pre[pre] = seen_pre.get(pre, 0) + 1
+                san_reports['crash:%s:%s' % pre] = san_reports.get('crash:%s:%s' % pre, 0) + 1
+                if seen_pre[pre] <= 2:
+                    todo.append(cr)
+
+        def confirm(cr):
+            return cr, single_case(exe, stage, seed, tier, cr['index'], outdir, timeout=stage.get('case_timeout', 60))
+        with ThreadPoolExecutor(8) as ex:
+            confirmed = list(ex.map(confirm, todo))
+        for cr, (rc, evs, err) in confirmed:
+            idx = cr['index']
+            desc, tags = None, []
+            for e in evs:
+                if e.get('t') == 'case':
+                    desc, tags = e.get('case'), e.get('tags', [])
+            if rc == 0:
+                inconclusive.append('crash at case %d (%s) did not reproduce in isolation' % (idx, cr.get('kind')))
+                continue
+            cr2 = dict(cr)
+            cr2['stderr'] = err[-8000:]
+            kind, func = crash_signature(cr2)
+            if not kind.startswith('asan') and not kind.startswith('tsan'):
+                kind2, func2 = crash_signature(cr)
+                if kind2.startswith('asan'):
+                    kind, func = kind2, func2
+            if cr.get('kind') == 'hang' or rc == 97:
+                kind = 'hang'
+            chk = 'crash:%s:%s' % (kind, func)
+            k = match_known(prop, chk, tags, known)
+            if k:
+                known_seen.setdefault(k['id'], dict(k=k, n=0))['n'] += 1
+                continue
+            sig = chk + '|' + ','.join(sorted(tags))
+            if sig not in violations:
+                violations[sig] = dict(property=prop, harness=stage['harness'], variant=stage['variant'],
+                                       mode=stage.get('mode', ''), seed=seed, tier=tier, index=idx, check=chk,
+                                       tags=tags, case=desc, observed=err[-3000:], expected='no crash', count=0)
+            violations[sig]['count'] += 1
         evaluations += st_eval
         stage_info.append(dict(harness=stage['harness'], variant=stage['variant'], mode=stage.get('mode', ''),
                                cases=n, evaluations=st_eval, shards=len(ranges), wall_s=round(time.time() - t0, 2)))
